@@ -2,6 +2,7 @@ import ALock.Drv.Sem
 import ALock.Drv.Mutex
 import ALock.Drv.RwLock
 import ALock.Drv.OnceCell
+import ALock.Drv.Barrier
 
 /-!
 `alock-driver`: reads op lines on stdin, prints one observation line per input line.
@@ -18,6 +19,7 @@ inductive World where
   | mutex (s : Mutex.Sys)
   | rwlock (s : RwLock.Sys)
   | once (s : Once.Sys)
+  | barrier (s : Barrier.Sys)
 
 def World.create (toks : List String) : World × String :=
   match toks with
@@ -37,6 +39,10 @@ def World.create (toks : List String) : World × String :=
     match Drv.Once.create rest with
     | some s => (.once s, Drv.obs "ok" [] (Drv.Once.snapshot s))
     | Option.none => (.empty, "bad-op")
+  | "barrier" :: rest =>
+    match Drv.Barrier.create rest with
+    | some s => (.barrier s, Drv.obs "ok" [] (Drv.Barrier.snapshot s))
+    | Option.none => (.empty, "bad-op")
   | _ => (.empty, "bad-op")
 
 def World.exec (w : World) (toks : List String) : World × String :=
@@ -46,6 +52,7 @@ def World.exec (w : World) (toks : List String) : World × String :=
   | .mutex s => let r := Drv.Mutex.exec s toks; (.mutex r.1, r.2)
   | .rwlock s => let r := Drv.RwLock.exec s toks; (.rwlock r.1, r.2)
   | .once s => let r := Drv.Once.exec s toks; (.once r.1, r.2)
+  | .barrier s => let r := Drv.Barrier.exec s toks; (.barrier r.1, r.2)
 
 def World.label (w : World) (toks : List String) : Option String :=
   match w with
